@@ -5,11 +5,16 @@
       `ek_codec_on _ (fun _ => True)` (= `ek_codec`), and agreement with the raw-byte kinds of
       model/Elem.v (which the extracted driver runs) on well-formed values.
    3. `capacity_ok` for 8, 2^40, 2^63.
-   4. Concrete non-trivial states satisfying `hinv`/`gok`/`SysInv`.
-   5. Closed corollaries of the property theorems with every hypothesis discharged.
+      `ek_pairW`, `ek_varW` (the driver's composite kinds restricted to well-formed byte strings).
+   4. Concrete non-trivial states satisfying `hinv`/`gok`/`SysInv`, obtained from the theorems
+      (built_state, scenario_spec, built_vector, scenario_rebase_spec and their example_ instances).
+   5. Closed corollaries of the property theorems with every hypothesis discharged
+      (rebase_h256, root_h256, hash_inj_*, run_refines_u64, step_refines_u64, run_refines_h256,
+      maps_unobservable_u64, history_u64): only the capacity bound and conditions on the operation
+      list remain.
    Proof file; no model code. *)
 From Coq Require Import FMapPositive Eqdep_dec.
-From MH Require Import Inv IfaceP IterP WulP IntraP CollCtorP CollObsP UMapP CodecP HashP SysInv.
+From MH Require Import Inv IfaceP IterP WulP IntraP CollCtorP CollObsP UMapP CodecP HashP SysInv RefineBase RefineB Refine.
 Local Open Scope N_scope.
 
 (* ====================================================================== *)
@@ -474,7 +479,7 @@ Proof.
   - intros j _. apply mget_init.
 Qed.
 
-Theorem SysInv_init {T U} (ek : ekind T) (M : umap_impl T U) H capN uinv :
+Theorem SysInv_initial {T U} (ek : ekind T) (M : umap_impl T U) H capN uinv :
   SysInv ek M H capN uinv init_state init_sys init_sregs.
 Proof.
   split; [reflexivity|]. split.
@@ -737,6 +742,97 @@ Proof.
   - apply N.leb_le. vm_compute. reflexivity.
 Qed.
 
+(* ---------- the master refinement theorem (Refine.v), closed ---------- *)
+(* with all element values well-formed (valid = fun _ => True) the side condition `op_valid` is
+   trivial; what remains of `op_ok` is: a collection operation (the builder operations are specified by
+   C17's theorems) whose SSZ input, if any, consists of bytes *)
+Definition op_plain {T} (o : @op T) : Prop := collection_op o = true /\ op_wf o.
+
+Lemma op_valid_True {T} (ek : ekind T) (o : @op T) : op_valid ek (fun _ => True) o.
+Proof. destruct o; cbn [op_valid]; auto; apply Forall_forall; intros x _; try exact I. now destruct x. Qed.
+Lemma op_ok_plain {T} (ek : ekind T) (os : list (@op T)) :
+  Forall op_plain os -> Forall (op_ok ek (fun _ => True)) os.
+Proof.
+  intros F. eapply Forall_impl; [|exact F]. intros o [Hco Hw]. split; [exact Hco|]. split; [exact Hw|apply op_valid_True].
+Qed.
+
+(* List/Vector<u64, capN> over MaxMap<VecMap>, hash Hc: every history of collection operations run by the
+   sequential interpreter from the initial state follows a run of the plain-sequence specification,
+   never fails to return Ok at top level, and ends in a state satisfying the system invariant *)
+Theorem run_refines_u64 (capN : N) (vec_based : bool) (os : list (@op U64)) :
+  capacity_ok capN -> Forall op_plain os ->
+  exists rs s' st' a',
+    model_run (ek_uintW 3) Mmv Hc capN vec_based init_sys init_state os = Some (rs, s', st') /\
+    spec_run (ek_uintW 3) Hc capN vec_based (fun _ => True) init_sregs os rs a' /\
+    SysInv (ek_uintW 3) Mmv Hc capN mv_inv st' s' a'.
+Proof.
+  intros CAP Hok.
+  destruct (run_refines (ek_uintW 3) Mmv Hc capN vec_based mv_inv (fun _ => True) ek_u64W_wf Mmv_lawful CAP
+              Hc_collision_free (ek_uintW_troot_inj 3) (ek_uintW_codec_on 3) os (op_ok_plain _ os Hok))
+    as (rs & s' & st' & a' & E & R & I & _).
+  exists rs, s', st', a'. auto.
+Qed.
+
+Theorem step_refines_u64 (capN : N) (vec_based : bool) st s a (o : @op U64) :
+  capacity_ok capN -> op_plain o -> SysInv (ek_uintW 3) Mmv Hc capN mv_inv st s a ->
+  refines (ek_uintW 3) Mmv Hc capN vec_based mv_inv (fun _ => True) s a o st.
+Proof.
+  intros CAP [Hco Hw] SI.
+  apply (step_refines (ek_uintW 3) Mmv Hc capN vec_based mv_inv (fun _ => True) ek_u64W_wf Mmv_lawful CAP
+           Hc_collision_free (ek_uintW_troot_inj 3) (ek_uintW_codec_on 3) st s a o Hco Hw); [|exact SI].
+  apply Forall_forall. intros [x|] _; cbn [reg_valid]; [|exact I]. apply Forall_forall. intros v _. exact I.
+Qed.
+
+(* the same for List/Vector<Hash256, capN> over BTreeMap *)
+Theorem run_refines_h256 (capN : N) (vec_based : bool) (os : list (@op H256)) :
+  capacity_ok capN -> Forall op_plain os ->
+  exists rs s' st' a',
+    model_run ek_h256W Mbt Hc capN vec_based init_sys init_state os = Some (rs, s', st') /\
+    spec_run ek_h256W Hc capN vec_based (fun _ => True) init_sregs os rs a' /\
+    SysInv ek_h256W Mbt Hc capN bt_sorted st' s' a'.
+Proof.
+  intros CAP Hok.
+  destruct (run_refines ek_h256W Mbt Hc capN vec_based bt_sorted (fun _ => True) ek_h256W_wf Mbt_lawful CAP
+              Hc_collision_free ek_h256W_troot_inj ek_h256W_codec_on os (op_ok_plain _ os Hok))
+    as (rs & s' & st' & a' & E & R & I & _).
+  exists rs, s', st', a'. auto.
+Qed.
+
+(* C14 closed: VecMap and BTreeMap (both under any capacity) answer every history of u64 operations
+   within the same specification, and identically wherever the specification is functional *)
+Theorem maps_unobservable_u64 (capN : N) (vec_based : bool) (os : list (@op U64)) :
+  capacity_ok capN -> Forall op_plain os ->
+  exists rs1 s1 st1 a1 rs2 s2 st2 a2,
+    model_run (ek_uintW 3) (@vecmap_impl U64) Hc capN vec_based init_sys init_state os = Some (rs1, s1, st1) /\
+    model_run (ek_uintW 3) (@btmap_impl U64) Hc capN vec_based init_sys init_state os = Some (rs2, s2, st2) /\
+    spec_run (ek_uintW 3) Hc capN vec_based (fun _ => True) init_sregs os rs1 a1 /\
+    spec_run (ek_uintW 3) Hc capN vec_based (fun _ => True) init_sregs os rs2 a2 /\
+    (Forall (fun o => det_op o = true) os -> rs1 = rs2 /\ a1 = a2).
+Proof.
+  intros CAP Hok.
+  destruct (maps_unobservable (ek_uintW 3) (@vecmap_impl U64) (@btmap_impl U64) Hc capN vec_based (fun _ => True) bt_sorted
+              (fun _ => True) ek_u64W_wf (vecmap_lawful _) (btmap_lawful _) CAP Hc_collision_free (ek_uintW_troot_inj 3)
+              (ek_uintW_codec_on 3) os (op_ok_plain _ os Hok))
+    as (rs1 & s1 & st1 & a1 & rs2 & s2 & st2 & a2 & E1 & E2 & R1 & R2 & _ & _ & _ & D).
+  exists rs1, s1, st1, a1, rs2, s2, st2, a2. auto 10.
+Qed.
+
+(* a concrete history, by the theorem: new list, write, push, flush, hash, pop_front, to-vector ... *)
+Example history_u64 (v1 v2 v3 v : U64) :
+  exists rs s' st' a',
+    model_run (ek_uintW 3) Mmv Hc 4 false init_sys init_state
+      [ONewList 0 [v1; v2; v3]; OSet 0 1 v; OPush 0 v; OApply 0; OHash 0; OClone 0 1; OPopFront 1 2; OToVector 0 2; OIntra 2]
+      = Some (rs, s', st') /\
+    spec_run (ek_uintW 3) Hc 4 false (fun _ => True) init_sregs
+      [ONewList 0 [v1; v2; v3]; OSet 0 1 v; OPush 0 v; OApply 0; OHash 0; OClone 0 1; OPopFront 1 2; OToVector 0 2; OIntra 2]
+      rs a' /\
+    SysInv (ek_uintW 3) Mmv Hc 4 mv_inv st' s' a'.
+Proof.
+  apply run_refines_u64.
+  - split; apply N.leb_le; reflexivity.
+  - repeat constructor.
+Qed.
+
 Print Assumptions Hc_collision_free.
 Print Assumptions ek_uintW_wf.
 Print Assumptions ek_uintW_codec_on.
@@ -746,7 +842,7 @@ Print Assumptions ek_h256W_codec_on.
 Print Assumptions ek_uint_agree.
 Print Assumptions ek_h256_agree.
 Print Assumptions capacity_ok_2_63.
-Print Assumptions SysInv_init.
+Print Assumptions SysInv_initial.
 Print Assumptions built_state.
 Print Assumptions scenario_spec.
 Print Assumptions example_built.
@@ -766,3 +862,8 @@ Print Assumptions ek_varW_codec_on.
 Print Assumptions ek_varW_troot_inj.
 Print Assumptions built_vector.
 Print Assumptions example_vector.
+Print Assumptions run_refines_u64.
+Print Assumptions step_refines_u64.
+Print Assumptions run_refines_h256.
+Print Assumptions maps_unobservable_u64.
+Print Assumptions history_u64.
